@@ -49,6 +49,14 @@ def body(cfg, ctx, sources=False):
         # resource-rich application before - the decision must not depend on that earlier binding
         cfg = dict(cfg, prebound=True)
         ctx.event('bound-elsewhere-before')
+    if len(_json.dumps(cfg, sort_keys=True)) % 5 == 2 and any(True for _ in I.all_mws(cfg)):
+        # every fifth configuration: the middleware functions declare all their parameters - `next` first - keyword-only
+        import copy as _copy
+        cfg = _copy.deepcopy(cfg)
+        for m_ in I.all_mws(cfg):
+            if not m_.get('flags'):
+                m_['kwnext'] = True
+        ctx.event('middleware-functions-all-keyword-only')
     try:
         plan = I.predict(cfg)
         rej = None
